@@ -22,6 +22,69 @@ fn lib_generate(text: &str, derives: &Option<Vec<String>>) -> Result<String, Str
     g.generate_code(&s).map(|t| t.to_string()).map_err(|e| format!("{e:#}"))
 }
 
+fn lib_generate_ctx(text: &str, derives: &Option<Vec<String>>, ctx: Option<&str>) -> Result<String, String> {
+    let g = RealGrammar::from_str(text).map_err(|e| format!("parse error at {}", e.position))?;
+    let mut s = CodegenSettings::default();
+    if let Some(d) = derives {
+        s.derives = d.clone();
+    }
+    if let Some(c) = ctx {
+        s.set_user_context_type(c);
+    }
+    g.generate_code(&s).map(|t| t.to_string()).map_err(|e| format!("{e:#}"))
+}
+
+/// the build-script helper configured with the same settings through every order of its setter calls
+fn builder_orders(text: &str, gfile: &std::path::Path, dest: &std::path::Path, derives: &Option<Vec<String>>, st: &mut Stats) {
+    let prefix = "use std::fmt;";
+    for ctx in [None, Some("crate::m::Ctx")] {
+        let base = lib_generate_ctx(text, derives, ctx);
+        // setters: 0 = prefix, 1 = derives (when a set is given), 2 = user_context_type (when given)
+        let mut setters: Vec<usize> = vec![0];
+        if derives.is_some() {
+            setters.push(1);
+        }
+        if ctx.is_some() {
+            setters.push(2);
+        }
+        let mut orders: Vec<Vec<usize>> = vec![vec![]];
+        for _ in 0..setters.len() {
+            orders = orders.into_iter().flat_map(|o| setters.iter().filter(|x| !o.contains(x)).map(|x| { let mut n = o.clone(); n.push(*x); n }).collect::<Vec<_>>()).collect();
+        }
+        for order in orders {
+            let _ = std::fs::remove_file(dest);
+            let mut c = Compile::file(gfile).destination(dest);
+            for x in &order {
+                c = match x {
+                    0 => c.prefix(prefix.to_string()),
+                    1 => c.derives(derives.clone().unwrap()),
+                    _ => c.user_context_type(ctx.unwrap()),
+                };
+            }
+            let r = std::panic::catch_unwind(std::panic::AssertUnwindSafe(|| c.run()));
+            let got: Result<String, String> = match r {
+                Ok(Ok(())) => std::fs::read_to_string(dest).map(|s| normalise(&s, prefix)).map_err(|e| e.to_string()),
+                Ok(Err(e)) => Err(format!("{e:#}")),
+                Err(_) => Err("panic".into()),
+            };
+            st.evaluations += 1;
+            st.nontrivial += 1;
+            st.bump("route_builder-order", 1);
+            let same = match (&base, &got) {
+                (Ok(a), Ok(b)) => a.trim() == b.trim(),
+                (Err(_), Err(e)) => e != "panic",
+                _ => false,
+            };
+            if !same {
+                let names: Vec<&str> = order.iter().map(|x| ["prefix", "derives", "user_context_type"][*x]).collect();
+                st.violation("C16", "route-output-differs", json!({"grammar": text, "input": format!("Compile builder, setters called in the order {:?}", names), "derives": derives,
+                    "site": "builder-order", "expected": "the library output for the same settings",
+                    "actual": match &got { Ok(b) => { let a = base.clone().unwrap_or_default(); let n = a.chars().zip(b.chars()).take_while(|(x, y)| x == y).count(); format!("differs at {n}: {:?}", b.chars().skip(n.saturating_sub(30)).take(120).collect::<String>()) } Err(e) => e.clone() }}));
+            }
+        }
+    }
+}
+
 /// child: tools c16gen lib <file> [derives..] | file <file> <dest> <prefix> [derives..] | dir <dir> <prefix> [derives..]
 pub fn gen(args: &[String]) {
     match args[0].as_str() {
@@ -189,6 +252,7 @@ pub fn run(tier: Tier, cli: &str) {
                 };
                 // library, second call in this process
                 cmp(&mut st, "library-again", lib_generate(text, d));
+                builder_orders(text, &gfile, &gdir.join("order.rs"), d, &mut st);
                 for run in 0..k {
                     // library in a fresh process
                     let o = Command::new(&exe).arg("c16gen").arg("lib").arg(&gfile).args(&dargs).stdout(Stdio::piped()).stderr(Stdio::null()).output().unwrap();
